@@ -357,6 +357,8 @@ func checkC14(p *load.Program, r *kit.Report) {
 	r.Rule("FRAME-HELPERS", "readHeader reads 4+12+4+4 bytes and rejects a foreign magic before reading on; readMessage consumes exactly header.Length on success; DiscardInput reads n = (n/1024)·1024 + n%1024 bytes with full reads; handleMessage discards header.Length when no handler exists; handleExtended rewrites header.Length from the 12+8 byte extended header before installing the counted discard; readIncoming stops on every handler error", 7)
 	r.Rule("READ-AHEAD", "nothing in the node package wraps the connection (or a reader derived from it) in a bufio reader/scanner or reads it to EOF: a read-ahead buffer swallows the beginning of the next message", 1)
 	r.Rule("BLOCKING-OP", "no handler performs a blocking send on a channel held in a BitcoinNode field; the outgoing queue is drained until closed by sendOutgoing (flush loop on every early exit)", 2)
+	r.Rule("SINGLE-WRITER", "only BitcoinNode.sendOutgoing writes to the connection (every other sender queues through sendMessage): a pong is never interleaved with another outgoing message", 1)
+	checkSingleWriter(p, r, "SINGLE-WRITER")
 	r.Rule("DRAIN-TO-CLOSE", "BlockDownloader.handleBlock returns only after it saw the tx channel closed (range exit or a flush loop that runs until close): the node pushes a block's txs with blocking sends from the message loop, which would otherwise park in the middle of the block", 1)
 	checkDrainToClose(p, r, "DRAIN-TO-CLOSE")
 	r.Assume("peer traffic is protocol-conformant (C14's own quantifier): for item loops, varint + count×item = declared length")
@@ -626,6 +628,31 @@ func checkFrameHelpers(p *load.Program, r *kit.Report, rule string) {
 			}
 		}
 		r.Check(bad == "", rule, "handleMessage/no-handler-discard", posOf(p, f.Blocks[0].Instrs[0]), "nil only after DiscardInput(conn, header.Length) or a handler ran", bad)
+		// once a handler was started the message is the handler's to consume: handleMessage itself
+		// does not read or discard anything more from the connection (a second, central discard
+		// counts against header.Length, which handleExtended has rewritten to the inner length while
+		// the counter also saw the extended header: the subtraction underflows)
+		badD := ""
+		var started []ssa.Instruction
+		kit.AllInstrs(f, func(in ssa.Instruction) {
+			if g, ok := in.(*ssa.Go); ok {
+				started = append(started, g)
+			}
+		})
+		for _, g := range started {
+			rr := kit.Reach(f, kit.After(g), kit.Opts{})
+			kit.AllInstrs(f, func(in ssa.Instruction) {
+				c, ok := in.(ssa.CallInstruction)
+				if !ok || !rr.Has(in) {
+					return
+				}
+				switch kit.CallID(c) {
+				case R + ".DiscardInput", R + ".DiscardInputWithCounter", R + ".readMessage", "io.ReadFull", "io.CopyN":
+					badD = kit.ShortID(kit.CallID(c)) + " at " + posOf(p, in) + " reads from the connection after the handler for this message was started: the handler already consumes the message to its declared length (and rewrites header.Length for extended messages)"
+				}
+			})
+		}
+		r.Check(badD == "", rule, "handleMessage/handler-owns-payload", posOf(p, f.Blocks[0].Instrs[0]), "handleMessage reads nothing from the connection after starting the handler", badD)
 	}
 	// handleExtended: Length store precedes the deferred discard; 12+8 bytes read before
 	if f := fn(p, r, rule, R, "BitcoinNode.handleExtended"); f != nil {
